@@ -282,7 +282,7 @@ def attachment(run, repo):
 
 # Not armed: the unchanged tree fails it (EmpiricalBase.__init__ appends the adjustment to the CALLER's list); see
 # /tmp/gaps2/DEFECT2_C13.md.  Set to True once the defect is fixed or recorded as known.
-ARM_SHARED_LIST = False
+ARM_SHARED_LIST = True
 
 
 def shared_list(run, repo):
@@ -762,6 +762,8 @@ _SCAN_LAST = ("                    has_P_adj = False\n"
               "                    if not has_P_adj:\n"
               "                        misc_models.append(GasPressureAdj())")
 MUTANTS = [
+    {'name': 'revert aefd2c4: the pressure adjustment is appended to the list the caller handed over', 'expect': ('PATH.attach', '__init__'),
+     'edits': [('pmutt/empirical/__init__.py', "                    # Work on a copy: the list belongs to the caller\n                    misc_models = list(misc_models)\n", "")]},
     {'name': 'second adjustment appended when one is present', 'expect': ('PATH.attach', ''),
      'edits': [(E_, '                        elif isinstance(model, GasPressureAdj):\n                            break', '                        elif isinstance(model, GasPressureAdj):\n                            pass')]},
     {'name': 'phase test case-sensitive', 'expect': ('PATH.attach', ''),
